@@ -46,6 +46,30 @@ CLAIMS = {
         note="Not decided: convergence, accuracy at termination, nearest-point-ness and order-independence of the limit (numerical).",
         technique=TECH + "abstract interpretation of the loop body in an exact linear-form domain with opaque projection terms, "
                          "schema comparison in normal form, call-binding of the stopping helpers"),
+    "C09": dict(
+        text="Decides everything in the statement except floating-point accuracy: (L1) the estimate normalises to inv(A^T A) A^T (f - b) "
+             "(or pinv(A)(f-b)) with A=calc_matA(), b=calc_vecB(), f=the current dataset's stacked distributions; (L2) the full-rank "
+             "guard dominates the inversion; (L3) only element [1] of each dataset entry is read (counts never); (L4) no name is carried "
+             "from one dataset to the next; (L5) result accessors map the template's generate_from_var over the stored estimates.",
+        note="Not decided: conditioning and exact recovery in floating point; that calc_matA/calc_vecB are the right model (C08).",
+        technique=TECH + "matrix-product normal form, CFG dominance, def-use and loop-carried-dependence analysis"),
+    "C10": dict(
+        text="Decides the structural reasons the constrained estimators return projected points: (P1) every projected-linear estimate is "
+             "to_var(calc_proj_physical(linear estimate)) after set_mode_proj_order(self.mode_proj_order); (P2) the four (eq, ineq) flag "
+             "combinations select physical / eq / ineq / identity projection, built on the template with its on_para_eq_constraint; (P3) "
+             "backtracking iterates are x + a(P(x - grad/mu) - x) with a starting at 1.0 and shrinking by a literal in (0,1), momentum "
+             "and FISTA iterates are P(.), results carry x'; (P4) default start is the template's origin object.",
+        note="Not decided: that the projection reaches physicality to the stated accuracy; recovery of the truth from exact data.",
+        technique=TECH + "def-use with flow-sensitive inlining, CFG dominance, decision-table extraction, affine normal form of the update rules"),
+    "C11": dict(
+        text="Narrow structural clauses only: (A1) the backtracking test is value(x+a y) > value(x) + gamma a <y, grad(x)>; (A2) every "
+             "accepted stopping mode has a branch defining the error value in all three algorithms and the loop continues exactly while the "
+             "windowed sum exceeds eps; (A3) the estimator configures loss (with the current dataset), option, constraint, loss-on-algo, "
+             "runs the four sufficiency guards, optimises, and returns the optimiser's value; (A4) CVXPY solver / constraint-mode tables "
+             "agree with the dispatch and 'physical' builds the constraints.",
+        note="Not decided (out of reach for static analysis): optimality against all competitors, agreement of the two estimators, "
+             "monotone decrease as a numerical fact.",
+        technique=TECH + "schema matching in affine / scalar-product normal form, table agreement with constant folding, CFG ordering"),
 }
 
 NOT_APPLICABLE = {
